@@ -65,8 +65,12 @@ func classifyRuntimeError(final, msg string) string {
 			segs = segs[len(segs)-3:]
 		}
 		cause := strings.Join(segs, ": ")
+		for len(cause) > 110 && len(segs) > 1 {
+			segs = segs[1:]
+			cause = strings.Join(segs, ": ")
+		}
 		if len(cause) > 110 {
-			cause = cause[len(cause)-110:]
+			cause = cause[:110]
 		}
 		return "failed:" + phase + ":" + cause
 	}
@@ -93,6 +97,7 @@ func normRuntimeText(t string, max int) string {
 	t = reHex.ReplaceAllString(t, "N")
 	t = reBuiltinType.ReplaceAllString(t, "T")
 	t = strings.ReplaceAll(t, "C as C", "C")
+	t = strings.ReplaceAll(t, "ID unless ID", "ID")
 	t = reParamName.ReplaceAllString(t, "$1 P")
 	t = reJSONKind.ReplaceAllString(t, "unmarshal V")
 	t = strings.Join(strings.Fields(t), " ")
